@@ -5,3 +5,9 @@ import LopdfModel.Model.Basic
 import LopdfModel.Model.Obj
 import LopdfModel.Model.Pages
 import LopdfModel.Thm.C12
+import LopdfModel.Model.Write
+import LopdfModel.Model.Parse
+import LopdfModel.Model.File
+import LopdfModel.Lemmas.Bytes
+import LopdfModel.Lemmas.Lex
+import LopdfModel.Thm.C01
